@@ -243,6 +243,20 @@ def case(ctx):
                 jordan.move(1, 1)
                 if S.snap_shape(shape) != ("simple", jb):
                     case.violate("moving the jordan afterwards moved the SimpleShape built from it")
+    # plotting a shape with segments of degree 4 or 5 (no primitive produces them; the plotter only
+    # knows lines, quadratics and cubics and must not "repair" the shape it is given)
+    if rng.random() < 0.25:
+        import matplotlib
+
+        matplotlib.use("Agg")
+        from matplotlib.figure import Figure
+
+        segs = G.blob_segments(rng, rng.randint(3, 5), rng.choice([4, 5]), (0, 0), 6.0, 10.0, False)
+        hspec = G.ctrl_spec(segs, "float")
+        H = G.build(hspec)
+        fig = Figure()
+        ax = fig.add_subplot(111)
+        observe(case, "plot(shape with degree-%d segments)" % (len(segs[0]) - 1), lambda a: shapepy.ShapePloter(fig=fig, ax=ax).plot(a), [H], ["A"], [1e-12])
     # plotting
     if rng.random() < 0.3:
         import matplotlib
